@@ -127,6 +127,11 @@ TEMPLATES = {
     "ONGOTO0": "C = C + 1 : IF C = 1 THEN ON A GOTO {Z} , {G}",
     "ONGOTODUP": "ON A GOTO {G} , {G} , {H}",
     "ONGOSUBDUP": 'ON A GOSUB {S} , {S2} , {S} : PRINT "{t}"',
+    # a statement list that starts with an empty statement (leading colon): on a line, in a THEN part, in an ELSE part
+    "COLONLEAD": ': PRINT "{t}" : PRINT "{t}"',
+    "COLONIF": ": IF A = 1 THEN {G}",
+    "COLONARMS": 'IF A = 1 THEN : PRINT "{t}" : GOTO {G} ELSE : PRINT "{t}"',
+    "COLONFOR": 'FOR I = 1 TO 2\n: PRINT "{t}"\nNEXT I',
     "END": "END",
     "STOP": "STOP",
     "IFEND": "IF A = 1 THEN END",
@@ -137,7 +142,7 @@ PAIR_ONLY = {"FORIF": "NEXTI", "FORLINE": "NEXTBARE"}
 SOLO_EXCLUDED = {"NEXTI", "NEXTBARE"}
 # variations of one construct: on their own and next to a few simple neighbours, not in every pair
 VARIANTS = {"IFLT", "IFGT", "IFLE", "IFGE", "IFNE", "IFEMPTYLT", "IFEMPTYGT", "IFEMPTYLE", "IFEMPTYGE", "IFEMPTYEQ", "IFEMPTYNE", "IFEMPTYCOLON", "IFEMPTYAND",
-            "IFEMPTYNUM", "IFEMPTYL", "IFEMPTYELSEPART", "BACK0", "THEN0", "ELSE0", "ONGOTO0", "ONGOTODUP", "ONGOSUBDUP", "FORSYMNEGSTEP", "FORSYMPOSSTEP", "FORSYMPARSTEP", "FORSYMPLUSSTEP"}
+            "IFEMPTYNUM", "IFEMPTYL", "IFEMPTYELSEPART", "BACK0", "THEN0", "ELSE0", "ONGOTO0", "ONGOTODUP", "ONGOSUBDUP", "COLONLEAD", "COLONIF", "COLONARMS", "COLONFOR", "FORSYMNEGSTEP", "FORSYMPOSSTEP", "FORSYMPARSTEP", "FORSYMPLUSSTEP"}
 
 OPTION_SETS = [
     dict(filter_unused_linenum=False, initialize_vars=False),
